@@ -111,6 +111,16 @@ Proof.
   - intros [sh b1] _. do 8 (destruct b1 as [|? b1]; [exact I|]). exact I.
 Qed.
 
+(* the reassembly part of Chunker::decode (chunk_info, final flags, concatenation of the bodies) *)
+Lemma decode_bodies_total P r : forall cs, total (decode_bodies P r cs).
+Proof.
+  induction cs as [|c rest IH]; [exact I|]. cbn [decode_bodies].
+  apply total_bind; [apply chunk_info_total|]. intros inf _. destruct (negb _); [exact I|].
+  apply total_bind; [exact IH|]. intros; exact I.
+Qed.
+Lemma decode_total P r cs : cs <> [] -> total (decode P r cs).
+Proof. intro H. unfold decode. destruct cs; [congruence|]. apply decode_bodies_total. Qed.
+
 (* ---------------- verify_padding ---------------- *)
 Lemma verify_padding_total fx d ks pe : fx_padding fx = true -> pe <= len d -> total (verify_padding fx d ks pe).
 Proof.
